@@ -29,8 +29,9 @@ def to_mpf(d):
     return d["s"] * v * mpf(2) ** (15 * d["q"])
 
 
-def dy(v):
+def dy(v, limbs=None):
     """mpf -> Dyadic record with LIMBS limbs (truncated towards zero: error < 2^-315 relative)"""
+    LIMBS = limbs or globals()["LIMBS"]
     if isinstance(v, mpc):
         v = v.real
     if not mpmath.isfinite(v):
@@ -127,6 +128,42 @@ def atoms_onevar(fn, x):
     return at
 
 
+def oneloop_atoms(ev, dy=None):
+    """loop functions at the mass ratios of a one-loop event (C03)"""
+    o = {k: to_mpf(v) for k, v in ev["o"].items()}
+    at = {}
+    full = dy
+    dy = lambda v: full(v, 8)          # 120 bits suffice for a comparison at 1e-8
+    def F(fn, x):
+        if x == 0:
+            return {"F1N": mpf(2), "F2N": mpf(3), "F1C": mpf(4)}[fn]
+        if x == 1:
+            return mpf(1)
+        return onevar_def(fn, x)
+    if ev["model"] == "mssm":
+        for i in range(4):
+            for m in range(2):
+                x = (o["MChi_%d0" % i] / o["MSm_%d0" % m]) ** 2
+                at["F1N_%d%d" % (i, m)] = dy(F("F1N", x))
+                at["F2N_%d%d" % (i, m)] = dy(F("F2N", x))
+        for k in range(2):
+            x = (o["MCha_%d0" % k] / o["MSvmL"]) ** 2
+            at["F1C_%d" % k] = dy(F("F1C", x))
+            at["F2C_%d" % k] = dy(F("F2C", x))
+    else:
+        for S, mS in (("h", o["mh"]), ("H", o["mH"]), ("A", o["mA"])):
+            for g in range(3):
+                x = (o["ml_%d0" % g] / mS) ** 2
+                at["F1C_%s_%d" % (S, g)] = dy(F("F1C", x))
+                at["F2C_%s_%d" % (S, g)] = dy(F("F2C", x))
+        for g in range(3):
+            at["F1N_Hp_%d" % g] = dy(F("F1N", (o["mv_%d0" % g] / o["mHp"]) ** 2))
+        x = (o["ml_10"] / o["mhSM"]) ** 2
+        at["F1C_SM"] = dy(F("F1C", x))
+        at["F2C_SM"] = dy(F("F2C", x))
+    return at
+
+
 def main():
     src, dst = sys.argv[1], sys.argv[2]
     with open(src) as fi, open(dst, "w") as fo:
@@ -152,6 +189,8 @@ def main():
                     import atoms_c02
                     at = atoms_c02.atoms(fn, a, dy)
                 ev["at"] = at
+            elif ev.get("e") == "OneLoop" and ev.get("exc") == "" and "o" in ev and all(v["k"] == "fin" for v in ev["o"].values()):
+                ev["at"] = oneloop_atoms(ev, dy)
             fo.write(json.dumps(ev) + "\n")
 
 
